@@ -59,13 +59,16 @@ CHECKS = {
         text=("Soundness (first sentence of C06) is proved for all class tables and all valid types: Builtin / SimpleClassifier / "
               "TypeParameter / WildCardType / ParameterizedType / NothingType (4 modules) / Function.is_subtype, "
               "_is_type_arg_contained (all 12 containment cases), get_supertypes (closure), Type.is_assignable and the 13 Java/"
-              "Groovy boxed-numeric is_assignable overrides (result implies Sub or the JLS widening table), not_related. A reversed "
+              "Groovy boxed-numeric is_assignable overrides (result implies Sub or the JLS widening table), not_related, and "
+              "TypeConstructor.is_subtype (a bare generic class is below T only if T equals one of its declared supertypes in "
+              "which none of its own type parameters occurs at any depth; _type_var_occurs_in is proved equal to the recursive "
+              "definition of 'occurs'; the shallow check of the unchanged tree was a genuine defect, repaired). A reversed "
               "variance, a skipped type argument, an ignored bound or a name-based constructor comparison leaves a return-True "
               "path without an applicable rule. Exactness / reflexivity / transitivity / bottom on ground class types is NOT "
               "proved: bounded exhaustive comparison on a 155-type universe."),
         note=("trusted: Horn rules are the declarative relation; PyEq (__eq__) as type identity; Valid(t) well-formedness as "
-              "precondition; same-constructor-same-arity; TypeConstructor.is_subtype, ParameterizedType.is_assignable and the "
-              "__eq__ overrides not under contract; TypeParameter.has_bound_of trusted"),
+              "precondition; same-constructor-same-arity; ParameterizedType.is_assignable (Java primitive arrays) and the "
+              "__eq__ overrides not under contract"),
         design='DESIGN.md section 4 (C06)'),
     'C07': dict(
         level='proof',
@@ -95,17 +98,22 @@ CHECKS = {
         design='DESIGN.md section 4 (C10)'),
     'C17': dict(
         level='proof',
-        technique='deductive site induction: global invariants J1/J2 (no projection / no contravariant projection exists when the switch is set) proved at every WildCardType construction site by symbolic execution of the enclosing real functions in slice mode (unsupported statements havocked) with z3; _get_type_arg_variance proved against its switch contract; bounded scan of generated programs for the remaining clauses',
-        text=("Proved for all inputs: under the hypothesis that J holds of every existing object, each of the 5 construction sites "
+        technique='deductive verification by induction over construction sites (slice mode of the VC generator: unsupported statements are havocked, obligations sit at the sites) with z3; bounded walk of generated programs under the 16 switch combinations',
+        text=("Proved for every state of the generator and every configuration: each of the 5 construction sites "
               "of WildCardType in src/ (enumerated from the AST on every run; an uncovered new site is a failed obligation) "
               "re-establishes J1 (use-site variance disabled => no projection object exists) and J2 (contravariance disabled => "
               "no contravariant projection), and _get_type_arg_variance returns Invariant / never Contravariant under the "
               "switches (plus its caller-choice and declared-variance clauses). One site (_to_type_variable_free) genuinely "
-              "violates J1: known finding. The clauses on type-parameter bounds, parameterized functions and declaration-site "
-              "variance (J3-J6) are bounded only."),
+              "violates J1: known finding. For type-parameter bounds, parameterized functions and declaration-site variance "
+              "(J3-J6) the generator's DECISION POINTS are proved: gen_type_params creates no bound when "
+              "cfg.prob.bounded_type_parameters == 0 and no variance unless asked; gen_func_decl chooses no type parameters when "
+              "cfg.prob.parameterized_functions == 0 and never asks for variance; every call of gen_type_params in src/ "
+              "(enumerated on every run) asks for variance only for kotlin / scala. That later copies, substitutions and "
+              "TypeUpdater preserve J3-J6, and the CLI wiring of src/args.py, are bounded only."),
         note=("trusted: site-induction schema, slice-mode havoc (abstractions listed in evidence), immutability of cfg and of the "
-              "Variance constants, copies preserve class and variance; J3-J6 not proved"),
-        design='DESIGN.md section 4 (C17), 2.7'),
+              "Variance constants, copies preserve class and variance, RandomUtils.bool(0) is never True; J3-J6 propagation "
+              "and CLI wiring not proved"),
+        design='DESIGN.md section 4 (C17), 2.7, 10.3'),
     'C13': dict(
         level='exploration',
         technique='bounded stand-in only: run-time contract on dump_program/load_program (object-graph isomorphism, identical translations in 4 languages, identical mutation results under the same random state, dump stability) on generated / erased / overwritten programs',
@@ -137,8 +145,8 @@ CHECKS = {
               "contract (C06) does not cover _construct_related_types. The bounded check enumerates, for a family of class tables "
               "(plain, generic, variance, nested, bounds, dependent bounds) x every query type x every flag combination, ALL "
               "random-choice paths of the real search, and judges every returned type with a reference relation written from the "
-              "property text. 6 failing input classes were repaired in /repo (two fix commits), 9 remain as known findings."),
-        note="bounded: stated class-table family; random choices enumerated exhaustively per query up to a path budget; 9 known findings (generic classes re-instantiated by the irrelevant-type search, open queries, dependent bounds)",
+              "property text. 8 failing input classes were repaired in /repo (three fix commits), 7 remain as known findings."),
+        note="bounded: stated class-table family; random choices enumerated exhaustively per query up to a path budget; 7 known findings (generic classes re-instantiated by the irrelevant-type search, dependent bounds)",
         design='DESIGN.md section 4 (C09)'),
     'C08': dict(
         level='proof',
